@@ -310,6 +310,12 @@ def run_check(pid, tier, seed, replay=None):
                 shard_stats[job[3]] = st_
                 total.merge(st_)
 
+        # 4b. optional second engine of the property (e.g. coverage-guided fuzzing for C06 thorough)
+        if hasattr(mod, "extra_engine"):
+            st_ = mod.extra_engine(tier, seed, flags, NPROC)
+            if st_ is not None:
+                total.merge(st_)
+
         # 5. classify failures
         kf_counts = {}
         new_buckets = []
